@@ -146,8 +146,8 @@ def check(tier):
     # decoder, the hash or the NTT tables is reported under this property too): C07 (decode), C14 (HashToPoint), C11 tables + small transforms
     from . import c07, c14, c11
     rep.parts['composed'] = ['C07 decompress/compress scenarios', 'C14 hash_to_point scenarios', 'C11 Kani table harnesses + engine S (quick bounds)']
-    c07.run(rep, tier)
-    c14.run(rep, tier)
+    c07.run(rep, 'quick')          # the deep bounds of these lemmas are the thorough tiers of C07 / C14 themselves
+    c14.run(rep, 'quick')
     c11.run_kani(rep, c11.KANI, c11.decode_table_failure)
     c11.run_s(rep, 'quick')
     if rep.violations and all('not reproduced' in x for x in rep.inconclusive):
